@@ -21,62 +21,90 @@ from pettingzoo import ParallelEnv
 OBS_KINDS = ("vector", "image", "discrete", "dict", "tuple")
 ACT_KINDS = ("discrete", "box1", "box2")
 
+# An observation space is described by {"str": "plain"|"dict"|"tuple", "members": [{"leaf": "box"|"discrete"|
+# "multidiscrete", "shape": [...], "dtype": numpy dtype name}]}; the five names above are presets.
+PRESETS = {
+    "vector": {"str": "plain", "members": [{"leaf": "box", "shape": [4], "dtype": "float32"}]},
+    "image": {"str": "plain", "members": [{"leaf": "box", "shape": [2, 2, 2], "dtype": "uint8"}]},
+    "discrete": {"str": "plain", "members": [{"leaf": "discrete", "shape": [], "dtype": "int64"}]},
+    "dict": {"str": "dict", "members": [{"leaf": "box", "shape": [2], "dtype": "float32"},
+                                        {"leaf": "discrete", "shape": [], "dtype": "int64"}]},
+    "tuple": {"str": "tuple", "members": [{"leaf": "box", "shape": [2], "dtype": "float32"},
+                                          {"leaf": "box", "shape": [1, 2], "dtype": "int64"},
+                                          {"leaf": "discrete", "shape": [], "dtype": "int64"}]},
+}
+DICT_KEYS = ("p", "q", "r")     # sorted, so gymnasium keeps this order
+
+
+def describe(kind):
+    return PRESETS[kind] if isinstance(kind, str) else kind
+
+
+def kind_name(kind):
+    if isinstance(kind, str):
+        return kind
+    return kind["str"] + "(" + ",".join(f"{m['leaf']}{tuple(m['shape'])}:{m['dtype']}" for m in kind["members"]) + ")"
+
+
+def is_unsigned(m):
+    return np.dtype(m["dtype"]).kind == "u"
+
+
+def member_size(m):
+    return int(np.prod(m["shape"])) if m["shape"] else 1
+
+
+def enc_member(u, mi, size, f):
+    if size == 1 and not u:
+        return [((f[0] * 40 + f[1]) * 256 + f[2]) * 8 + f[3]]
+    return [f[(j + mi) % 4] + j // 4 for j in range(size)]
+
 
 def encode(kind, f):
-    """features [f0,f1,f2,f3] -> list of flat integer members"""
-    f0, f1, f2, f3 = f
-    if kind == "vector":
-        return [[f0, f1, f2, f3]]
-    if kind == "image":
-        return [[f0, f1, f2, f3, f0 + 1, f1 + 1, f2 + 1, f3 + 1]]
-    if kind == "discrete":
-        return [[((f0 * 40 + f1) * 256 + f2) * 8 + f3]]
-    if kind == "dict":
-        return [[f0, f1], [f2 * 8 + f3]]
-    if kind == "tuple":
-        return [[f0, f1], [f2, f3], [f2 + f3]]
-    raise ValueError(kind)
+    """features [f0,f1,f2,f3] -> list of flat integer members (twin of Model.encode)"""
+    d = describe(kind)
+    return [enc_member(is_unsigned(m), mi, member_size(m), f) for mi, m in enumerate(d["members"])]
 
 
-MEMBER_SHAPES = {
-    "vector": [(4,)],
-    "image": [(2, 2, 2)],
-    "discrete": [()],
-    "dict": [(2,), ()],
-    "tuple": [(2,), (1, 2), ()],
-}
+def leaf_space(m):
+    shape, dt = tuple(m["shape"]), np.dtype(m["dtype"])
+    if m["leaf"] == "discrete":
+        return spaces.Discrete(1 << 24)
+    if m["leaf"] == "multidiscrete":
+        return spaces.MultiDiscrete(np.full(shape, 1 << 24, dtype=np.int64))
+    if dt.kind == "u":
+        return spaces.Box(0, 255, shape, dt)
+    if dt.kind == "f":
+        return spaces.Box(-1.0, float(1 << 24), shape, dt)
+    return spaces.Box(-1, np.iinfo(dt).max, shape, dt)
 
 
 def obs_space(kind):
-    if kind == "vector":
-        return spaces.Box(-1, 255, (4,), np.float32)
-    if kind == "image":
-        return spaces.Box(0, 255, (2, 2, 2), np.uint8)
-    if kind == "discrete":
-        return spaces.Discrete(1 << 24)
-    if kind == "dict":
-        return spaces.Dict({"p": spaces.Box(-1, 255, (2,), np.float32), "q": spaces.Discrete(1 << 13)})
-    if kind == "tuple":
-        return spaces.Tuple((spaces.Box(-1, 255, (2,), np.float32),
-                             spaces.Box(-1, 255, (1, 2), np.int64),
-                             spaces.Discrete(512)))
-    raise ValueError(kind)
+    d = describe(kind)
+    ms = [leaf_space(m) for m in d["members"]]
+    if d["str"] == "plain":
+        return ms[0]
+    if d["str"] == "dict":
+        return spaces.Dict({DICT_KEYS[i]: sp for i, sp in enumerate(ms)})
+    return spaces.Tuple(tuple(ms))
+
+
+def pack_leaf(m, vals):
+    if m["leaf"] == "discrete":
+        return int(vals[0])
+    dt = np.int64 if m["leaf"] == "multidiscrete" else np.dtype(m["dtype"])
+    return np.array(vals, dtype=dt).reshape(tuple(m["shape"]))
 
 
 def pack(kind, members):
     """flat integer members -> a value of obs_space(kind)"""
-    if kind == "vector":
-        return np.array(members[0], dtype=np.float32)
-    if kind == "image":
-        return np.array(members[0], dtype=np.uint8).reshape(2, 2, 2)
-    if kind == "discrete":
-        return int(members[0][0])
-    if kind == "dict":
-        return {"p": np.array(members[0], dtype=np.float32), "q": int(members[1][0])}
-    if kind == "tuple":
-        return (np.array(members[0], dtype=np.float32), np.array(members[1], dtype=np.int64).reshape(1, 2),
-                int(members[2][0]))
-    raise ValueError(kind)
+    d = describe(kind)
+    vs = [pack_leaf(m, vals) for m, vals in zip(d["members"], members)]
+    if d["str"] == "plain":
+        return vs[0]
+    if d["str"] == "dict":
+        return {DICT_KEYS[i]: v for i, v in enumerate(vs)}
+    return tuple(vs)
 
 
 def act_space(akind):
